@@ -70,7 +70,22 @@ FLOOR == /\ st = "called" /\ R.kind = "floor"
          /\ Clause("C19", "floor_with_copy_leaves_its_argument_alone", R.copy => R.input_same)
          /\ st' = "returned" /\ UNCHANGED tid
 
-Next == LL \/ BIC \/ CH \/ FLOOR
+(* a long run (clusters of thousands of windows), judged through the observation predicates of the harness *)
+OkIncS(v) == v \in {"ok", "inc"}
+BIG == /\ st = "called" /\ R.kind = "big"
+       /\ Clause("C09", "long_run_completes", R.completed)
+       /\ (R.completed =>
+            /\ Clause("C06", "one_likelihood_entry_per_labelled_point", R.nAll = R.n)
+            /\ Clause("C06", "accounting_identities_hold_on_a_long_run", OkIncS(R.acctOk))
+            /\ Clause("C05", "result_lists_the_log_density_of_every_labelled_point_and_aggregates_exactly_those",
+                      OkIncS(R.o7result))
+            /\ Clause("C16", "bic_matches_definition", OkIncS(R.bicOk))
+            /\ ((R.converged /\ R.allNonEmpty /\ R.K >= 2) =>
+                  ClauseDev("C17", "calinski_harabasz_matches_definition_with_per_column_centroid",
+                            OkIncS(R.chOk), "F5_scalar_centre", R.chScalarCentre)))
+       /\ st' = "returned" /\ UNCHANGED tid
+
+Next == LL \/ BIC \/ CH \/ FLOOR \/ BIG
 Spec == Init /\ [][Next]_vars
 Accept == (st = "returned") => TLCSet(1, TLCGet(1) \cup {tid})
 Post == PrintT(<<"ACCEPTED", TLCGet(1)>>)
